@@ -87,6 +87,20 @@ def all_atomic_sites(ctx, field):
 WAITERS = ('wait', 'wait_timeout', 'async_blocking_wait', 'poll')
 
 
+def is_park_call(ctx, t, depth=0):
+    """std::thread::park, or a loop-free private wrapper around it (`fn park() { std::thread::park() }` in a platform module)"""
+    fn = t.get('fn')
+    if not fn:
+        return False
+    if canon(fn['path']) == 'std::thread::park':
+        return True
+    if fn.get('local') and depth < 3:
+        cb = ctx.facts.bodies.get(fn['path'])
+        if cb is not None and mir_private_helper(cb) and not cb.has_cycle() and not any(atomic_method(n_) for n_ in cb.callee_names()):
+            return any(is_park_call(ctx, t2, depth + 1) for _, t2 in cb.all_calls())
+    return False
+
+
 def infeasible_after_failed_cas(evs):
     """in `wait`: once the CAS LOCKED -> LOCKED_STARVATION has FAILED the state is final (the only other writer is the peer,
     and final states are absorbing), so a later re-read that finds it unfinished does not exist"""
@@ -509,7 +523,9 @@ def g6(ctx):
             ctx.oblige(1, sample='wait: park in a loop that re-loads the state')
             nparks = 0
             for pbody in cands:
-                parks = [bb for bb, t in pbody.all_calls() if t.get('fn') and canon(t['fn']['path']) == 'std::thread::park']
+                if pbody is not b and not pbody.has_cycle() and not any(atomic_method(n_) for n_ in pbody.callee_names()):
+                    continue  # a plain wrapper around park(): judged at its call sites
+                parks = [bb for bb, t in pbody.all_calls() if is_park_call(ctx, t)]
                 nparks += len(parks)
                 comps = pbody.sccs()
                 for pb in parks:
